@@ -224,6 +224,15 @@ def run_impl(modname, cases, tmo=20.0, chunk=None, workers=None):
     if not cases:
         return []
     workers = workers or NCPU
+    # import the library once in the parent so that forked workers share the loaded modules
+    # (concurrent first imports of matplotlib in many fresh processes raced and failed spuriously)
+    setup_impl_path()
+    try:
+        import warnings
+        warnings.simplefilter('ignore')
+        import PseudoNetCDF  # noqa: F401
+    except Exception:
+        pass
     chunk = chunk or max(1, min(200, len(cases) // (workers * 4) + 1))
     chunks = [cases[i:i + chunk] for i in range(0, len(cases), chunk)]
     res = []
